@@ -120,6 +120,7 @@ pub fn run(ctx: &Ctx) -> ! {
         x.only_datasets = Some(vec!["diamond", "counts0123"]);
         x
     }));
+    cfg.stream_share = 1.0;
     let stats = corpus::drive(
         ctx,
         &uni,
